@@ -8,5 +8,6 @@ import Babble.Props.C08
 import Babble.Props.C12
 import Babble.Props.C14
 import Babble.Props.C16
+import Babble.Props.C17
 import Babble.Props.C18
 import Babble.Props.C19
